@@ -158,6 +158,7 @@ func c01Grammar(res *explore.Result, g *gram.Grammar, inputs [][]byte, verbose b
 	b.Mon.BudgetCalls, b.Mon.BudgetRes = c01Budget, c01Budget
 	gs := g.String()
 	trippedAt, lastLen := -1, 0
+	var history []string // inputs parsed before with this grammar object
 	undecidedBefore := res.Counters["undecided"]
 	for _, w := range inputs {
 		if trippedAt >= 0 && len(w) > trippedAt {
@@ -173,7 +174,8 @@ func c01Grammar(res *explore.Result, g *gram.Grammar, inputs [][]byte, verbose b
 		}
 		lastLen = len(w)
 		t := ref.Compute(g, an, w, true)
-		c := Case{Placement: impl.Placement, Prior: b.MemoBefore, Grammar: gs, Input: string(w)}
+		c := Case{Placement: impl.Placement, Prior: b.MemoBefore, Grammar: gs, Input: string(w), History: append([]string{}, history...)}
+		history = append(history, string(w))
 		if anyOver(t) && len(w) > 2 {
 			// infinitely (or hugely) ambiguous on this input: the number of returned trees is a
 			// power tower in the curtailment depth; such pairs are explored for |w| <= 2 only.
@@ -239,7 +241,11 @@ func c01Replay(raw json.RawMessage) *explore.Result {
 		return res
 	}
 	res.Notes = append(res.Notes, "case: "+c.String())
-	c01Grammar(res, g, [][]byte{[]byte(c.Input)}, true)
+	var inputs [][]byte
+	for _, h := range c.History {
+		inputs = append(inputs, []byte(h))
+	}
+	c01Grammar(res, g, append(inputs, []byte(c.Input)), true)
 	return res
 }
 
